@@ -341,10 +341,24 @@ func Generate(seed uint64) *Scenario {
 		}
 		sc.Root.ArgComp = append(sc.Root.ArgComp, "v2", "v10", "v1beta1")
 		special = "complete:v"
+	case 2: // a tool with many commands (more than any "small list" threshold), and a partial help topic to complete
+		have := map[string]bool{}
+		for _, c := range sc.Root.Subs {
+			have[c.Name] = true
+		}
+		for _, n := range cmdWords {
+			if !have[n] {
+				sc.Root.Subs = append(sc.Root.Subs, CmdDef{Name: n, Fn: r.Intn(2) == 0})
+			}
+		}
+		special = "complete:help"
+	case 3: // a program with a great many options (beyond any "small program" threshold)
+		more := genOpts(r, taken, 40, reqBias)
+		sc.Root.Opts = append(sc.Root.Opts, more...)
 	}
-	sc.Help = r.Intn(3) != 0
+	sc.Help = r.Intn(3) != 0 || special == "complete:help"
 	sc.HelpAlias = sc.Help && r.Intn(2) == 0
-	if sc.Help && r.Intn(6) == 0 {
+	if sc.Help && r.Intn(6) == 0 && special != "complete:help" {
 		sc.HelpName = "info"
 	}
 	sc.DescStyle = []int{0, 0, 0, 1, 2, 3}[r.Intn(6)]
@@ -509,8 +523,11 @@ func Generate(seed uint64) *Scenario {
 		}
 		last = "--" + name + "=" + v[:r.Intn(len(v)+1)]
 	}
-	if strings.HasPrefix(special, "complete:") {
+	if special == "complete:v" {
 		cl, last = []string{"prog"}, []string{"v", "", "v1"}[r.Intn(3)]
+	}
+	if special == "complete:help" {
+		cl, last = []string{"prog", "help"}, []string{"", "b", "c", "cl", "l", "lo", "log", "s", "t", "v", "v1", "r"}[r.Intn(12)]
 	}
 	cl = append(cl, last)
 	sc.CompLine = strings.Join(cl, " ")
@@ -519,6 +536,10 @@ func Generate(seed uint64) *Scenario {
 	}
 	if r.Intn(10) == 0 {
 		sc.CompLine = strings.Replace(sc.CompLine, " ", "  ", 1)
+	}
+	if r.Intn(12) == 0 {
+		// what a shell hands over in the middle of a quoted or escaped word
+		sc.CompLine += []string{` "hello wor`, ` 'it`, `\`, ` \"`, ` --msg="a b`}[r.Intn(5)]
 	}
 	sc.SelfEmpty = r.Intn(10) == 0
 	return sc
